@@ -690,6 +690,9 @@ class C14(CheckBase):
                 return ["ok", t.render(**a)]
             raise AssertionError(kind)
         except Exception as e:      # noqa: BLE001
+            # (an interrupt still pending for this thread is not meant for
+            # the harness formatting the error)
+            trace.arm_interrupt(None)
             if isinstance(e, WouldBlock):
                 # (the atomic observer met a lock held by a parked task:
                 # not an outcome, the observation is abandoned)
